@@ -440,7 +440,7 @@ def dumpers():
 
 def loaders():
     import yaml
-    out = [("UnsafeLoader", yaml.UnsafeLoader), ("Loader", yaml.Loader)]
+    out = [("UnsafeLoader", yaml.UnsafeLoader), ("Loader", yaml.Loader), ("unsafe_load", "unsafe_load"), ("unsafe_load_all", "unsafe_load_all")]
     if have_c():
         out.append(("CUnsafeLoader", yaml.CUnsafeLoader))
     return out
@@ -448,7 +448,21 @@ def loaders():
 
 def full_loaders():
     import yaml
-    return [("FullLoader", yaml.FullLoader)] + ([("CFullLoader", yaml.CFullLoader)] if have_c() else [])
+    return [("FullLoader", yaml.FullLoader), ("full_load", "full_load")] + ([("CFullLoader", yaml.CFullLoader)] if have_c() else [])
+
+
+def _load(yaml, text, L):
+    """L is a loader class or the name of a convenience entry point."""
+    if L == "unsafe_load":
+        return yaml.unsafe_load(text)
+    if L == "full_load":
+        return yaml.full_load(text)
+    if L == "unsafe_load_all":
+        docs = list(yaml.unsafe_load_all(text))
+        if len(docs) != 1:
+            raise AssertionError("unsafe_load_all gave %d documents for one" % len(docs))
+        return docs[0]
+    return yaml.load(text, Loader=L)
 
 
 def _has_setstate(name):
@@ -522,7 +536,7 @@ def eval_graph(case):
         for lname, L in loaders():
             evals += 1
             try:
-                back = yaml.load(text, Loader=L)
+                back = _load(yaml, text, L)
             except RecursionError as e:
                 failures.append(Failure("RecursionError:%s>%s" % (dname, lname), "text=%r" % plain_text[:300]))
                 continue
@@ -555,7 +569,7 @@ def eval_graph(case):
         for lname, L in full_loaders():
             evals += 1
             try:
-                back = yaml.load(text, Loader=L)
+                back = _load(yaml, text, L)
                 exc = None
             except RecursionError:
                 exc = "RecursionError"
@@ -682,7 +696,7 @@ def eval_modules(case):
     for lname, L in loaders():
         evals += 1
         try:
-            back = yaml.load(text, Loader=L)
+            back = _load(yaml, text, L)
         except Exception as e:
             failures.append(Failure("module-load-raised:%s>%s:%s" % (dname, lname, exc_key(e)), exc_msg(e)))
             continue
@@ -692,7 +706,7 @@ def eval_modules(case):
     for lname, L in full_loaders():
         evals += 1
         try:
-            yaml.load(text, Loader=L)
+            _load(yaml, text, L)
             failures.append(Failure("full-loader-accepts-module-tag:%s>%s" % (dname, lname), "text=%r" % text[:200]))
         except yaml.constructor.ConstructorError:
             pass
